@@ -264,13 +264,99 @@ func run(c Case) *hx.Outcome {
 	return o
 }
 
-func TestProp(t *testing.T)    { prop.Check(t) }
-func TestRegress(t *testing.T) { prop.Regress(t) }
+// ---- crowd: the limit holds for each session while others are busy ----
+
+// WCase: sessions run at once; Sizes[s][k] is the body size of session s's k-th message, some
+// under and some over the limit.
+type WCase struct {
+	Limit int     `json:"limit"`
+	Sizes [][]int `json:"sizes"`
+}
+
+var propCrowd = hx.Prop[WCase]{
+	ID: pid, Name: "crowd",
+	Rule: "limit 5000 or 20000 bytes; 2-8 SMTP sessions run freely at once, each sending 2-5 messages whose sizes are well under, or well over, the limit " +
+		"(every body line names its session and message); every message under the limit must be acknowledged and stored with exactly its own content, every " +
+		"message over it refused with 552, and nothing of a refused message may be stored anywhere; non-trivial = at least three sessions with both " +
+		"kinds of message; distinct = distinct case JSON",
+	Quick: 40, Thorough: 400,
+	Gen: func(t *rapid.T) WCase {
+		c := WCase{Limit: rapid.SampledFrom([]int{5000, 20000}).Draw(t, "limit")}
+		sz := rapid.Custom(func(t *rapid.T) int {
+			if rapid.Bool().Draw(t, "over") {
+				return c.Limit + rapid.SampledFrom([]int{2000, 10000, 60000}).Draw(t, "excess")
+			}
+			return rapid.SampledFrom([]int{100, c.Limit / 3, c.Limit - 1500}).Draw(t, "under")
+		})
+		c.Sizes = rapid.SliceOfN(rapid.SliceOfN(sz, 2, 5), 2, 8).Draw(t, "sizes")
+		return c
+	},
+	Run: func(c WCase) *hx.Outcome {
+		o := &hx.Outcome{}
+		cfg := hx.DefaultCfg()
+		cfg.Backend, cfg.MaxMessageBytes, cfg.NoHTTP = "file", c.Limit, true
+		w, err := hx.NewWorld(cfg)
+		if err != nil {
+			o.Failf(pid+":harness", "world: %v", err)
+			return o
+		}
+		defer w.Close()
+		var sessions [][]hx.PTxn
+		overs, unders, mixed := 0, 0, 0
+		for si, l := range c.Sizes {
+			var txns []hx.PTxn
+			so, su := false, false
+			for ti, n := range l {
+				line := []byte(fmt.Sprintf("W%02dM%02d.abcdefghijklmnopqrstuvwxyz0123456789.\r\n", si, ti))
+				txns = append(txns, hx.PTxn{Rcpts: []string{fmt.Sprintf("w%d@a.test", si)}, Body: bytes.Repeat(line, n/len(line)+1)[:n/len(line)*len(line)]})
+				if n > c.Limit {
+					overs++
+					so = true
+				} else {
+					unders++
+					su = true
+				}
+			}
+			if so && su {
+				mixed++
+			}
+			sessions = append(sessions, txns)
+		}
+		acked, problems := hx.RunParallel(w, sessions, false)
+		refused := 0
+		for _, p := range problems {
+			if strings.HasPrefix(p, "REFUSED 552:") {
+				refused++
+				continue
+			}
+			o.Failf(pid+":crowd-session", "%s", p)
+		}
+		if refused != overs && !o.Failed() {
+			o.Failf(pid+":crowd-refusals", "limit %d: %d messages over the limit were sent, %d were refused with 552 (%d under the limit, %d acknowledged)", c.Limit, overs, refused, unders, len(acked))
+		}
+		if o.Failed() {
+			return o
+		}
+		model := hx.NewEModel()
+		for _, e := range acked {
+			model.Add(e)
+		}
+		hx.SortForUnordered(w.Store, model)
+		if err := hx.CmpE2E(w.Store, model, nil); err != nil {
+			o.Failf(pid+":crowd-store", "limit %d, %d sessions: %v", c.Limit, len(c.Sizes), err)
+		}
+		o.NonTrivial = mixed >= 3
+		return o
+	},
+}
+
+func TestProp(t *testing.T)    { prop.Check(t); propCrowd.Check(t) }
+func TestRegress(t *testing.T) { prop.Regress(t); propCrowd.Regress(t) }
 func TestReplay(t *testing.T) {
 	if *hx.ReplayPath == "" {
 		t.Skip("no -replay")
 	}
-	if !prop.Replay(t, *hx.ReplayPath) {
+	if !prop.Replay(t, *hx.ReplayPath) && !propCrowd.Replay(t, *hx.ReplayPath) {
 		t.Fatalf("no prop matches %s", *hx.ReplayPath)
 	}
 }
